@@ -186,5 +186,26 @@ def step (s : St) (w : List String) : St × String :=
       | some t2 => (s, chk (getRootC t2) (fun r => "ok " ++ r ++ " " ++ pathsDigest t2 s.leaves.size))
   | _, _ => (s, "bad-op")
 
-def main : IO Unit := loop ({} : St) step
+/-- outside the property's quantifier (no leaves, index out of range, nil path) the behaviour of the code is an
+observation, not compared: both sides print `obs` (same rule as `c19Outside` in the Go suite) -/
+def outside (w : List String) (s : St) : Bool :=
+  let n := s.leaves.size
+  let expEmpty (k : String) : Bool := match s.exports[k.toNat!]? with | some (_, m) => m == 0 | none => false
+  match w with
+  | "leaves" :: _ => false
+  | "lf" :: _ => false
+  | "dup" :: _ => false
+  | ["zero"] => false
+  | ["export"] => false
+  | "verifynil" :: _ => true
+  | ["pathraw", i] => n == 0 || (match i.toInt? with | some i => i < 0 || i ≥ (n : Int) | none => true)
+  | ["checkexport", k] => expEmpty k
+  | ["loadcompute", k, m, _] => m.toNat! == 0 || expEmpty k
+  | _ => n == 0
+
+def stepObs (s : St) (w : List String) : St × String :=
+  let (s', out) := step s w
+  if out ≠ "bad-op" && outside w s' then (s', "obs") else (s', out)
+
+def main : IO Unit := loop ({} : St) stepObs
 end Driver.Merkle
